@@ -178,10 +178,47 @@ def _serde_table(rng, tables):
             "LOCATION 's3://b/%d';" % (name, rng.randint(1, 9)))
 
 
+def _glued(rng, tables):
+    """Two statements on one line with no ';' between them: unusual but accepted input (the grammar's
+    `expr : expr <clause>` rules merge them into one statement dict)."""
+    a = rng.choice([_schema, _type, _sequence, _schema])(rng, tables).rstrip().rstrip(";")
+    b = rng.choice([_schema, _schema, _sequence, _type])(rng, tables)
+    return a + " " + b
+
+
+_TABLE_RE = None
+
+
+def tables_of(ddl):
+    """Names of tables a script creates (textual; only used to aim follow-up scripts at them)."""
+    global _TABLE_RE
+    if _TABLE_RE is None:
+        import re
+        _TABLE_RE = re.compile(r"create\s+(?:or\s+replace\s+)?(?:external\s+|temporary\s+|temp\s+|global\s+|transient\s+)*"
+                               r"table\s+(?:if\s+not\s+exists\s+)?([^\s(;]+)", re.I)
+    out = []
+    for t in _TABLE_RE.findall(ddl):
+        if t not in out:
+            out.append(t)
+    return out[:6]
+
+
+def gen_followup(rng, tables):
+    """A script that only ALTERs / indexes tables created by ANOTHER script (alone, it refers to tables that
+    do not exist: anything remembered process-wide from the other script changes its outcome)."""
+    n = rng.randint(1, 4)
+    parts = []
+    for _ in range(n):
+        t = rng.choice(tables)
+        parts.append((_alter if rng.random() < 0.65 else _index)(rng, [t] * 5))
+    return "\n".join(parts) + "\n", ("followup",) * n
+
+
 _KINDS = [
     ("create", _create_table, 10), ("alter", _alter, 4), ("index", _index, 2), ("sequence", _sequence, 2),
     ("type", _type, 2), ("schema", _schema, 2), ("comment", _comment_line, 4), ("set", _set_line, 3),
     ("unsupported", _unsupported, 1), ("regex", _regex_table, 1), ("serde", _serde_table, 1),
+    ("glued", _glued, 1),
 ]
 
 
